@@ -8,6 +8,8 @@ Local Open Scope Q_scope.
 Inductive case :=
 | CEuler (deg : bool) (angles : list Q) (order : list axis) (o : list fl)
 | CUpLook (up look : vec3 Q) (o : result (list fl))
+(* near-collinear pairs: tolerance t = 1e-9 amplified by 1 / sin(angle between up and look) *)
+| CUpLookTol (t : Q) (up look : vec3 Q) (o : result (list fl))
 | CRotation (a : rotation_arg Q) (fwd inv : list fl)
 | CTranslation (t : vec3 Q) (fwd inv : list fl)
 | CScaleNU (x y z : Q) (allow : bool) (o : result (list fl * list fl))
@@ -38,6 +40,9 @@ Definition check_case (c : case) : bool :=
   match c with
   | CEuler deg angles order o => mat3_close (euler QOps deg angles order) o
   | CUpLook up look o => res_agree mat3_close (rotation_from_up_and_look QOps up look) o
+  | CUpLookTol t up look o =>
+      res_agree (fun m ob => all2 (fun a b => match b with Fin q => close_tol t a q | _ => false end) (m3list m) ob)
+                (rotation_from_up_and_look QOps up look) o
   | CRotation a fwd inv =>
       match a with
       | RotMat _ => list_eq_fl (mlist (fst (tm_rotation QOps a))) fwd && list_eq_fl (mlist (snd (tm_rotation QOps a))) inv
